@@ -238,21 +238,36 @@ theorem flowCheckOn_none (flow : List Flow) (stack : List Instr) (k fuel : Nat)
   intro o _
   rw [h o]; rfl
 
-/-- **C05 (outside the findings F2 and F3)** — for every accepted program and every function that
-matches neither finding, the emitted stack, run as a jump program, does what the structured source
-does: for every sequence of condition outcomes and every step budget, the same effects in the same
-order and the same kind of end (`agree`), hence `flowCheck` finds no disagreement for any bound -/
-theorem C05_partial (p : Program) (hacc : (run p).accepted = true) :
-    ∀ x ∈ p.fnDecls.zip (run p).roots, x.1.hasF2 = false → x.1.hasF3 = false →
-      ∀ (k fuel : Nat), flowCheck x.1 x.2.context k fuel = none := by
-  rintro ⟨f, b⟩ hfb hf2 hf3 k fuel
-  dsimp only at hf2 hf3 ⊢
+/-- **T4 under the F2 reading** for one function analysed without error, outside the finding F3: the
+jump program does what the source does *when the statements after a nested `if` in an if / else body
+are dead* — for every outcome sequence and every fuel.  For a function without the F2 pattern this
+is `C05_function`. -/
+theorem C05F2_function {g : Globals} {rg : RGlobals} (hg : GlobRel g rg) (hn : GNames g) (f : FnDecl)
+    (hok : BodyStmt.anaOKL f.body = true) (hf3 : f.hasF3 = false)
+    (he : (functionBody g f).errors = []) (outcomes : List Bool) (fuel : Nat) :
+    agree f.flowF2 (functionBody g f).root.context outcomes fuel = none := by
+  obtain ⟨hl, hend⟩ := T4F2_function hg hn f hok hf3 he
+  obtain ⟨hres, hlast⟩ := wf_function g f he hf3
+  have hpos : 0 < (functionBody g f).root.context.length := by
+    obtain ⟨i, hi, _⟩ := hlast
+    cases hc : (functionBody g f).root.context with
+    | nil => rw [hc] at hi; simp at hi
+    | cons _ _ => simp
+  exact lay_agree _ _ hl (C10_nodup_function g f) hend
+    (fun fuel os => runJump_wellformed _ hres hlast fuel 0 os [] hpos) outcomes fuel
+
+/-- lifting a per-function agreement to every function stack of an accepted program -/
+theorem C05_lift (p : Program) (hacc : (run p).accepted = true) (flowOf : FnDecl → List Flow) (P : FnDecl → Prop)
+    (hfn : ∀ (f : FnDecl), BodyStmt.anaOKL f.body = true → P f →
+      (functionBody (pass2 p (pass1 p GState.init)).globals f).errors = [] → ∀ (o : List Bool) (fuel : Nat),
+      agree (flowOf f) (functionBody (pass2 p (pass1 p GState.init)).globals f).root.context o fuel = none) :
+    ∀ x ∈ p.fnDecls.zip (run p).roots, P x.1 →
+      ∀ (k fuel : Nat), flowCheckOn (flowOf x.1) x.2.context k fuel = none := by
+  rintro ⟨f, b⟩ hfb hP k fuel
+  dsimp only at hP ⊢
   have hnp : (run p).panic = none ∧ (run p).errors = [] := by
     unfold Result.accepted at hacc
     simpa [Option.isNone_iff_eq_none, List.isEmpty_iff] using hacc
-  have hrel := rel_run p
-  have hg := globRel_of_rel hrel
-  have hn := gnames_of_rel hrel
   have hok := anaOK_of_no_panic p hnp.1
   have hr : (run p).roots = p.fnDecls.map fun f => (functionBody (pass2 p (pass1 p GState.init)).globals f).root := by
     unfold run; simp [List.map_map, Function.comp_def, fns_eq_fnDecls p]
@@ -288,8 +303,34 @@ theorem C05_partial (p : Program) (hacc : (run p).accepted = true) :
     exact ⟨f1, by rw [fns_eq_fnDecls]; exact hmem, rfl⟩
   unfold AnaOKB at hok
   rw [List.all_eq_true] at hok
-  unfold flowCheck
-  exact flowCheckOn_none _ _ _ _ (fun o => C05_function hg hn f1 (hok f1 hmem) hf2 hf3 hfe o fuel)
+  exact flowCheckOn_none _ _ _ _ (fun o => hfn f1 (hok f1 hmem) hP hfe o fuel)
+
+/-- **C05 (outside the findings F2 and F3)** — for every accepted program and every function that
+matches neither finding, the emitted stack, run as a jump program, does what the structured source
+does: for every sequence of condition outcomes and every step budget, the same effects in the same
+order and the same kind of end (`agree`), hence `flowCheck` finds no disagreement for any bound -/
+theorem C05_partial (p : Program) (hacc : (run p).accepted = true) :
+    ∀ x ∈ p.fnDecls.zip (run p).roots, x.1.hasF2 = false → x.1.hasF3 = false →
+      ∀ (k fuel : Nat), flowCheck x.1 x.2.context k fuel = none := by
+  intro x hx hf2 hf3 k fuel
+  have hrel := rel_run p
+  exact C05_lift p hacc FnDecl.flow (fun f => f.hasF2 = false ∧ f.hasF3 = false)
+    (fun f hok hP he o fuel => C05_function (globRel_of_rel hrel) (gnames_of_rel hrel) f hok hP.1 hP.2 he o fuel)
+    x hx ⟨hf2, hf3⟩ k fuel
+
+/-- **the finding F2 is exactly what it is recorded as** — for every accepted program and every
+function that does not match F3 (it may match F2), the emitted stack agrees with the source *under
+the F2 reading* for every outcome sequence and every step budget: whatever an F2 function does
+differently from its source is the skipping of the statements after a nested `if`, nothing else.
+This is the matcher the check applies to the implementation's stacks (`flowCheckF2`). -/
+theorem C05F2_partial (p : Program) (hacc : (run p).accepted = true) :
+    ∀ x ∈ p.fnDecls.zip (run p).roots, x.1.hasF3 = false →
+      ∀ (k fuel : Nat), flowCheckF2 x.1 x.2.context k fuel = none := by
+  intro x hx hf3 k fuel
+  have hrel := rel_run p
+  exact C05_lift p hacc FnDecl.flowF2 (fun f => f.hasF3 = false)
+    (fun f hok hP he o fuel => C05F2_function (globRel_of_rel hrel) (gnames_of_rel hrel) f hok hP he o fuel)
+    x hx hf3 k fuel
 
 /-- a program none of whose functions matches F2 or F3: the output predicate reports nothing -/
 theorem C05 (p : Program) (h23 : ∀ f ∈ p.fnDecls, f.hasF2 = false ∧ f.hasF3 = false) : P_C05 p (run p) = [] := by
@@ -311,6 +352,68 @@ theorem C05 (p : Program) (h23 : ∀ f ∈ p.fnDecls, f.hasF2 = false ∧ f.hasF
     dsimp only at ht
     rw [hall (f, b) hfb h2.1 h2.2] at ht
     cases ht
+
+/-- a program none of whose functions matches F3: the output predicate reports nothing but instances
+of the recorded finding F2 -/
+theorem C05_upto_F2 (p : Program) (h3 : ∀ f ∈ p.fnDecls, f.hasF3 = false) :
+    ∀ t ∈ P_C05 p (run p), t = "F2:nested-if-in-if-body-reuses-the-enclosing-end-label" := by
+  unfold P_C05
+  split
+  · intro t ht; cases ht
+  · rename_i hacc
+    have ha : (run p).accepted = true := by
+      cases hx : acceptedWF p (run p) with
+      | true => unfold acceptedWF at hx; simp only [Bool.and_eq_true] at hx; exact hx.1
+      | false => rw [hx] at hacc; simp at hacc
+    have hall := C05_partial p ha
+    have hallF2 := C05F2_partial p ha
+    intro t ht
+    rw [List.mem_eraseDups, List.mem_flatMap] at ht
+    obtain ⟨⟨⟨f, b⟩, i⟩, hx, ht⟩ := ht
+    have hfb := List.fst_mem_of_mem_zipIdx hx
+    have hf3 := h3 f (List.of_mem_zip hfb).1
+    dsimp only at ht
+    cases hfc : flowCheck f b.context c05Outcomes c05Fuel with
+    | none => rw [hfc] at ht; cases ht
+    | some why =>
+      rw [hfc] at ht
+      dsimp only at ht
+      have hF2none := hallF2 (f, b) hfb hf3 c05Outcomes c05Fuel
+      dsimp only at hF2none
+      cases hf2 : f.hasF2 with
+      | false =>
+        have := hall (f, b) hfb hf2 hf3 c05Outcomes c05Fuel
+        dsimp only at this
+        rw [this] at hfc; cases hfc
+      | true =>
+        rw [hf2, hF2none] at ht
+        simp at ht
+        exact ht
+
+/-- non-vacuity of the F2 reading: `if c { if d { g(1) } g(2) }` — accepted, matches F2 and not F3,
+and the F2 reading differs from the source (it drops the call after the nested `if`) -/
+def exampleF2 : Program :=
+  [.fn ⟨['g'], [(['a'], .prim .u8)], .prim .u8, [.ret (.mk (.var ['a']) none)]⟩,
+   .fn ⟨['m'], [], .prim .u8,
+      [.ifS (.mk (.single (.mk (.lit (.bool true)) none))
+          (.ifb [.ifS (.mk (.single (.mk (.lit (.bool false)) none)) (.ifb [.call ⟨['g'], [.mk (.lit (.u8 1)) none]⟩]) none none),
+                 .call ⟨['g'], [.mk (.lit (.u8 2)) none]⟩]) none none),
+       .ret (.mk (.lit (.u8 0)) none)]⟩]
+
+mutual
+def Flow.nodes : Flow → Nat
+  | .ite t e => 1 + Flow.nodesL t + Flow.nodesL e
+  | .loop b => 1 + Flow.nodesL b
+  | _ => 1
+def Flow.nodesL : List Flow → Nat
+  | [] => 0
+  | x :: xs => Flow.nodes x + Flow.nodesL xs
+end
+
+example : (run exampleF2).accepted = true ∧
+    (exampleF2.fnDecls.map fun f => (f.hasF2, f.hasF3, Flow.nodesL f.flow, Flow.nodesL f.flowF2)) =
+      [(false, false, 1, 1), (true, false, 5, 4)] := by
+  constructor <;> decide +kernel
 
 /-- non-vacuity: a function with a loop, a break in a nested if, an if / else and a call is accepted,
 matches neither finding, and its flow is not trivial -/
